@@ -48,7 +48,7 @@ def _src_local(f, operand):
 
 
 def C16_1_2(ctx, facts):
-    f = facts.fn(SP)
+    f = facts.unit(facts.fn(SP))
     ctx.touched(f)
     b0, s0 = _tuple_site(f)
     if s0 is None:
@@ -120,7 +120,7 @@ def C16_1_2(ctx, facts):
 
 
 def C16_3(ctx, facts):
-    f = facts.fn(SP)
+    f = facts.unit(facts.fn(SP))
     b0, s0 = _tuple_site(f)
     if s0 is None:
         return ctx.missing("sort_preferred|match-tuple", "scrutinee not found")
